@@ -542,6 +542,10 @@ func runC13(r *Rec) {
 				if !ti.Supply.Equal(sdkmath.NewInt(supply)) {
 					r.Fail("C13/registry/edit-changed-supply", "", nil)
 				}
+				// the cap bounds the recorded supply after every accepted write, not only after mints
+				if !ti.SupplyCap.IsZero() && ti.Supply.GT(ti.SupplyCap) {
+					r.Fail("C13/registry/supply-above-cap", fmt.Sprintf("owner edit accepted: recorded supply %s exceeds the supply cap %s now stored (cap before %d)", ti.Supply, ti.SupplyCap, capv), nil)
+				}
 			}
 		}
 	}
